@@ -304,6 +304,11 @@ def gen_op(rng, prop):
                 name = rng.choice(['allow_partial', 'notify_on_change', 'enable_type_check'])
                 if name == 'enable_type_check':
                     name = 'allow_partial'       # property quantifies over type check ON
+            if prop in ('C07', 'C09') and name == 'enable_type_check':
+                # with type checking off a typed container may hold anything and
+                # the library's own getters assert; these properties do not
+                # quantify over that mode
+                name = 'notify_on_change'
             if name in ('notify_on_change', 'enable_type_check'):
                 val = rng.random() < 0.4
             else:
@@ -328,8 +333,11 @@ def gen_case(streams: Streams, tier: str, prop='C01') -> dict:
     faults = {}
     if prop in ('C01', 'C09', 'C07') and f.random() < 0.3:
         faults['raise_in_handler'] = f.randint(1, 6)     # n-th handler invocation raises
-    return {'prop': prop, 'roots': roots, 'ops': ops, 'faults': faults,
+    case = {'prop': prop, 'roots': roots, 'ops': ops, 'faults': faults,
             'noise': streams.sub('noise') % (2 ** 31)}
+    if prop == 'C08' and cfg.random() < 0.1:
+        case['mixed_seal'] = True
+    return case
 
 
 # ---------------------------------------------------------------------------
@@ -431,7 +439,16 @@ class Forest:
 
 
 def materialize(forest, vdesc, plain_ok=True):
-    """Argument descriptor -> a fresh Python value."""
+    """Argument descriptor -> a fresh Python value.  Building the argument is
+    the caller's business, not part of the operation under test: the scoped
+    flags that wrap the operation are neutralised while it is built (the
+    library refuses to construct objects under as_sealed(True) etc.)."""
+    with pg.as_sealed(False), pg.allow_writable_accessors(True), pg.allow_partial(None), \
+            pg.enable_type_check(True), pg.notify_on_change(True):
+        return _materialize(forest, vdesc)
+
+
+def _materialize(forest, vdesc):
     if vdesc[0] == 'attached':
         if not forest.roots:
             return 0
@@ -446,7 +463,7 @@ def materialize(forest, vdesc, plain_ok=True):
     if vdesc[0] == 'missing':
         return MISSING
     if vdesc[0] == 'insertion':
-        return pg.Insertion(materialize(forest, vdesc[1]))
+        return pg.Insertion(_materialize(forest, vdesc[1]))
     if vdesc[0] in ('rec', 'rec2'):
         return forest.build_rec(vdesc)
     return values.build(vdesc, symbolic=False)
@@ -803,6 +820,15 @@ def op_rebind(f, t, a, out):
 class _Unacceptable:
     """A value no typed field accepts (and that untyped containers store)."""
 
+    def __eq__(self, other):
+        return isinstance(other, _Unacceptable)
+
+    def __ne__(self, other):
+        return not isinstance(other, _Unacceptable)
+
+    def __hash__(self):
+        return 7
+
 
 def op_rebind_fn(f, t, a, out):
     what = a['what']
@@ -862,6 +888,17 @@ def op_seal(f, t, a, out):
 
 
 def op_unseal(f, t, a, out):
+    p = t.sym_parent
+    while p is not None:
+        if p.is_sealed:
+            # an unsealed node below a sealed ancestor: batches through the
+            # ancestor are applied partially before they are refused (known
+            # finding); generated only in the runs that opt in
+            if not f.case.get('mixed_seal'):
+                out.skipped = True
+                return
+            break
+        p = p.sym_parent
     t.seal(False)
 
 
@@ -1774,3 +1811,319 @@ CANARIES_BY_PROP['C03'] = {
 }
 for _n, _c in CANARIES_BY_PROP['C03'].items():
     CANARIES[f'C03.{_n}'] = _c
+
+
+# ---------------------------------------------------------------------------
+# C07: clone fidelity and independence
+
+CLONE_OPS = ('clone', 'clone_shallow', 'copy_copy', 'deepcopy')
+
+
+def _pairs(a, b, path=()):
+    """Corresponding nodes of two equal trees."""
+    yield a, b, path
+    if isinstance(a, pg.Symbolic) and isinstance(b, pg.Symbolic) and not isinstance(a, pg.Ref):
+        ia, ib = dict(a.sym_items()), dict(b.sym_items())
+        for k in ia:
+            if k in ib:
+                yield from _pairs(ia[k], ib[k], path + (k,))
+
+
+class C07Oracle(OracleBase):
+    def after(self, step, op, out, pre, post, pre_nodes, interrupted):
+        k = op['k']
+        if out.status == 'ok' and k in CLONE_OPS and out.new_roots:
+            t, r = out.target, out.new_roots[-1]
+            deep = k in ('clone', 'deepcopy')
+            self.probes['clones_checked'] = self.probes.get('clones_checked', 0) + 1
+            if t.is_sealed:
+                self.probes['clone_of_sealed'] = self.probes.get('clone_of_sealed', 0) + 1
+            if t.sym_partial:
+                self.probes['clone_of_partial'] = self.probes.get('clone_of_partial', 0) + 1
+            if type(r) is not type(t):
+                self.bad('C07.class', k, f'{k}: clone is a {type(r).__name__}, original a '
+                         f'{type(t).__name__}', step)
+                return
+            if not pg.eq(r, t) or not pg.eq(t, r):
+                self.bad('C07.not-equal', k, f'{k}: clone {r!r:.200} is not pg.eq to the '
+                         f'original {t!r:.200}', step)
+                return
+            for a, b, path in _pairs(t, r):
+                if not (isinstance(a, pg.Symbolic) and isinstance(b, pg.Symbolic)):
+                    continue
+                if type(a) is not type(b):
+                    self.bad('C07.class', k, f'{k}: node {list(path)} is {type(b).__name__} in '
+                             f'the clone, {type(a).__name__} in the original', step)
+                    return
+                if isinstance(a, (pg.Dict, pg.List)) and a.value_spec is not b.value_spec \
+                        and not pg.eq(a.value_spec, b.value_spec):
+                    self.bad('C07.schema-binding', f'{k}|{type(a).__name__}',
+                             f'{k}: node {list(path)} is bound to {b.value_spec!r:.120} in the '
+                             f'clone, {a.value_spec!r:.120} in the original', step)
+                    return
+                for flag in ('allow_partial', 'is_sealed', 'accessor_writable'):
+                    if path:
+                        # flags of nested nodes are derived from the value's own
+                        # (seal is recursive, partial propagates on construction)
+                        break
+                    if getattr(a, flag) != getattr(b, flag):
+                        self.bad('C07.flag', f'{k}|{type(a).__name__}|{flag}',
+                                 f'{k}: node {list(path)} ({type(a).__name__}) has {flag}='
+                                 f'{getattr(b, flag)} in the clone but {getattr(a, flag)} in the '
+                                 f'original', step)
+                        return
+                if a is b:
+                    self.bad('C07.shared-node', f'{k}|{type(a).__name__}',
+                             f'{k}: the clone shares the {type(a).__name__} at {list(path)} '
+                             f'with the original', step)
+                    return
+            errs = values.structure_errors(r)
+            if errs:
+                self.bad('C07.malformed-clone', f'{k}|{errs[0][0]}',
+                         f'{k}: the clone is not a well-formed tree: {errs[0][1]}', step)
+                return
+            ids_t = {id(n) for n, _, _, _ in values.walk(self.forest.roots[out.root_index])
+                     if isinstance(n, pg.Symbolic)}
+            for n, _, _, path in values.walk(r):
+                if isinstance(n, pg.Symbolic) and id(n) in ids_t:
+                    self.bad('C07.shared-node', f'{k}|{type(n).__name__}',
+                             f'{k}: clone node {list(path)} is an object of the original tree',
+                             step)
+                    return
+            # cloning never modifies the original
+            for ri in range(len(pre)):
+                if pre[ri] != post[ri]:
+                    self.bad('C07.clone-modifies-original', k,
+                             f'{k} changed root {ri}: {pre[ri][0][:160]} -> {post[ri][0][:160]}',
+                             step)
+                    return
+        if k in CLONE_OPS and out.status == 'raised' and not isinstance(out.exc, HandlerFault):
+            self.bad('C07.clone-raises', f'{k}|{type(out.exc).__name__}',
+                     f'{k} of a {type(out.target).__name__} raised {type(out.exc).__name__}: '
+                     f'{str(out.exc)[:200]}', step)
+            return
+        # independence: no later mutation of one tree is observable through another
+        if not interrupted or True:
+            self.check_noninterference(step, op, out, pre, post)
+        # and the forest stays well-formed (one node, one place)
+        self.check_structure(step, op, out, interrupted, pre_nodes)
+
+
+ORACLES['C07'] = C07Oracle
+
+
+# ---------------------------------------------------------------------------
+# C08: write protection
+
+_MUTATORS = set(LIST_OPS + DICT_OPS + OBJ_OPS + ['rebind', 'rebind_fn']) - \
+    {'l_getslice', 'l_add', 'l_mul', 'l_copy', 'd_copy'}
+_ACCESSOR_OPS = {'l_setitem', 'l_setslice', 'l_delitem', 'd_setitem', 'd_setattr', 'd_delitem',
+                 'o_setattr'}
+
+
+def _container_slots(root):
+    """path -> direct child slots (shallow content signature) of every container."""
+    out = {}
+    for node, parent, key, path in values.walk(root):
+        if isinstance(node, pg.Symbolic) and not isinstance(node, pg.Ref):
+            sig = []
+            for k, v in node.sym_items():
+                if isinstance(v, pg.Symbolic):
+                    sig.append((repr(k), 'node', type(v).__name__))
+                else:
+                    sig.append((repr(k), 'leaf', json.dumps(_plain(v), default=repr)))
+            out[tuple(str(p) for p in path)] = (node, sig)
+    return out
+
+
+class C08Oracle(OracleBase):
+    """Reference executor: the same op on an unsealed, accessor-writable deep
+    copy of the target's tree tells which containers the op would change."""
+
+    def before(self, step, op, pre):
+        self.plan = None
+        self._pre_flag = None
+        f = self.forest
+        if op['k'] in ('seal', 'unseal'):
+            r, t = f.select(op['t'])
+            if t is not None:
+                self._pre_flag = t.is_sealed
+                # mixed: some descendant's flag already differs from the value's own
+                self._pre_mixed = any(
+                    isinstance(n, pg.Symbolic) and n.is_sealed != t.is_sealed
+                    for n, _, _, _ in values.walk(t))
+            return
+        if op['k'] not in _MUTATORS:
+            return
+        r, t = f.select(op['t'])
+        if t is None:
+            return
+        root = f.roots[r]
+        scope_sealed, scope_acc = None, None
+        for name, val in op.get('scopes', []):
+            if name == 'as_sealed':
+                scope_sealed = val
+            elif name == 'allow_writable_accessors':
+                scope_acc = val
+        # effective protection of every container of the tree (scope over flag)
+        prot = {}
+        for node, parent, key, path in values.walk(root):
+            if isinstance(node, pg.Symbolic) and not isinstance(node, pg.Ref):
+                sealed = node.is_sealed if scope_sealed is None else scope_sealed
+                prot[tuple(str(p) for p in path)] = sealed
+        mixed = False
+        for node, parent, key, path in values.walk(root):
+            if isinstance(node, pg.Symbolic) and not node.is_sealed:
+                p = node.sym_parent
+                while p is not None:
+                    if p.is_sealed:
+                        mixed = True      # an unsealed node below a sealed ancestor
+                        break
+                    p = p.sym_parent
+        acc = t.accessor_writable if scope_acc is None else scope_acc
+        # reference copy: same contents, nothing protected
+        try:
+            with pg.as_sealed(False), pg.allow_writable_accessors(True), pg.notify_on_change(False):
+                ref_root = root.clone(deep=True)
+                ref_root.seal(False)
+                for n, _, _, _ in values.walk(ref_root):
+                    if isinstance(n, pg.Symbolic):
+                        n.set_accessor_writable(True)
+        except Exception:  # pylint: disable=broad-except
+            return
+        ref_forest = Forest(self.case)
+        ref_forest.roots = list(f.roots)
+        ref_forest.roots[r] = ref_root
+        ref_forest.raise_at = None
+        ref_op = dict(op, scopes=[[n, v] for n, v in op.get('scopes', [])
+                                  if n not in ('as_sealed', 'allow_writable_accessors')])
+        before_slots = _container_slots(ref_root)
+        ref_out = execute(ref_forest, ref_op)
+        if ref_out.status == 'skipped':
+            return
+        after_slots = _container_slots(ref_root) if ref_out.status == 'ok' else before_slots
+        # a container "would change" when the same node object has other direct
+        # slots afterwards (a container that is merely removed from its parent
+        # does not change; its parent does)
+        after_by_id = {id(n): sig for p, (n, sig) in after_slots.items()}
+        changed = [p for p, (n, sig) in before_slots.items()
+                   if id(n) in after_by_id and after_by_id[id(n)] != sig]
+        self._pre_sealed = t.is_sealed
+        self.plan = {'r': r, 'prot': prot, 'changed': changed, 'ref_status': ref_out.status,
+                     'acc': acc, 'tpath': tuple(str(p) for p in t.sym_path.keys),
+                     'scope_sealed': scope_sealed, 'mixed': mixed}
+
+    def after(self, step, op, out, pre, post, pre_nodes, interrupted):
+        k = op['k']
+        # seal / unseal reach every descendant
+        if k in ('seal', 'unseal') and out.status == 'ok' and \
+                getattr(self, '_pre_flag', None) is not None and self._pre_flag != (k == 'seal'):
+            # (a call that does not change the value's own flag is a no-op)
+            want = k == 'seal'
+            for n, _, _, path in values.walk(out.target):
+                if isinstance(n, pg.Symbolic) and not isinstance(n, pg.Ref) and n.is_sealed != want:
+                    self.bad('C08.seal-not-deep',
+                             'mixed-seal' if getattr(self, '_pre_mixed', False)
+                             else f'{k}|{type(n).__name__}',
+                             f'{k} on {type(out.target).__name__}: descendant {list(path)} '
+                             f'({type(n).__name__}) reports is_sealed={n.is_sealed}', step)
+                    return
+        plan = getattr(self, 'plan', None)
+        if plan is None or out.status == 'skipped':
+            return
+        r = plan['r']
+        changed_prot = [p for p in plan['changed'] if plan['prot'].get(p)]
+        tprot = plan['prot'].get(plan['tpath'])
+        flagsig = 'mixed-seal' if plan['mixed'] else f'{k}|scope={plan["scope_sealed"]}'
+        if plan['ref_status'] == 'ok' and changed_prot:
+            self.probes['protected_would_change'] = self.probes.get('protected_would_change', 0) + 1
+            # the op would change a sealed container: it must be refused
+            if not (out.status == 'raised' and isinstance(out.exc, pg.WritePermissionError)):
+                self.bad('C08.not-refused', flagsig,
+                         f'{k}{json.dumps(op["a"])[:160]} scopes={op.get("scopes")} would change '
+                         f'sealed container(s) at {changed_prot[:3]} but '
+                         f'{"returned normally" if out.status == "ok" else "raised " + type(out.exc).__name__}',
+                         step)
+                return
+        if changed_prot or tprot:
+            # whatever happened, nothing protected may have changed
+            if pre[r][0] != post[r][0] and (changed_prot or all(plan['prot'].values())):
+                self.bad('C08.protected-changed', flagsig,
+                         f'{k}{json.dumps(op["a"])[:160]} scopes={op.get("scopes")} on a '
+                         f'protected tree changed it: {pre[r][0][:160]} -> {post[r][0][:160]}', step)
+                return
+        # accessor-protected: [] = / attribute set / del are refused, rebind is not
+        if plan['acc'] is False and k in _ACCESSOR_OPS and plan['ref_status'] == 'ok' \
+                and plan['changed'] \
+                and not tprot and isinstance(out.target, (pg.Dict, pg.List, pg.Object)):
+            self.probes['accessor_refusals_expected'] = \
+                self.probes.get('accessor_refusals_expected', 0) + 1
+            if not (out.status == 'raised' and isinstance(out.exc, pg.WritePermissionError)):
+                self.bad('C08.accessor-not-refused', k,
+                         f'{k}{json.dumps(op["a"])[:160]} scopes={op.get("scopes")} on a value '
+                         f'with accessor writes disabled was not refused ({out.status})', step)
+                return
+            if pre[r][0] != post[r][0]:
+                self.bad('C08.accessor-protected-changed', k,
+                         f'{k} was refused but the tree changed', step)
+                return
+        if plan['acc'] is False and k == 'rebind' and not any(plan['prot'].values()) \
+                and plan['ref_status'] == 'ok' and out.status == 'raised' \
+                and isinstance(out.exc, pg.WritePermissionError):
+            by_scope = any(n == 'allow_writable_accessors' and v is False
+                           for n, v in op.get('scopes', []))
+            self.bad('C08.rebind-refused', 'scope' if by_scope else 'flag',
+                     f'rebind on an unsealed value with accessor writes disabled '
+                     f'({"by scope" if by_scope else "by its own flag"}) raised {out.exc}', step)
+            return
+        # unprotected and the reference accepted: the real one must accept too
+        if not any(plan['prot'].values()) and plan['acc'] is not False \
+                and plan['ref_status'] == 'ok' and out.status == 'raised' \
+                and isinstance(out.exc, pg.WritePermissionError):
+            self.bad('C08.spurious-refusal', flagsig,
+                     f'{k}{json.dumps(op["a"])[:160]} scopes={op.get("scopes")} was refused '
+                     f'({out.exc}) although nothing is protected', step)
+
+
+ORACLES['C08'] = C08Oracle
+
+
+CANARIES_BY_PROP['C07'] = {
+    'dict_shallow_clone_shares_containers': _canary(
+        _D, 'Dict', '_sym_clone', 'if deep or isinstance(v, base.Symbolic):', 'if deep:'),
+    'object_clone_drops_allow_partial': _canary(
+        _O, 'Object', '_sym_clone', 'allow_partial=self._allow_partial', 'allow_partial=False'),
+    'list_clone_drops_sealed': _canary(
+        _L, 'List', '_sym_clone', 'sealed=self._sealed,', ''),
+    'object_clone_drops_accessor_flag': _canary(
+        _O, 'Object', '_sym_clone', 'return cloned.set_accessor_writable(self._accessor_writable)',
+        'return cloned'),
+    'relocate_never_copies': _canary(_B, 'Symbolic', '_relocate_if_symbolic',
+                                     'value = value.clone()', 'pass'),
+    'dict_clone_drops_value_spec': _canary(
+        _D, 'Dict', '_sym_clone', 'value_spec=self._value_spec,', 'value_spec=None,'),
+    'list_copy_shares_children': _canary(
+        _L, 'List', '_sym_clone', 'if deep or isinstance(v, base.Symbolic):', 'if deep:'),
+}
+CANARIES_BY_PROP['C08'] = {
+    'treats_as_sealed_ignores_scope': _canary(
+        _B, None, 'treats_as_sealed',
+        'return value.sym_sealed if sealed_in_scope is None else sealed_in_scope',
+        'return value.sym_sealed'),
+    'dict_seal_not_recursive': _canary(_D, 'Dict', 'seal', 'v.seal(sealed)', 'pass'),
+    'list_insert_no_sealed_check': _canary(
+        _L, 'List', 'insert', 'if base.treats_as_sealed(self):', 'if False:'),
+    'iadd_bypasses_seal': _canary(_L, 'List', '__iadd__', 'self.extend(other)',
+                                  'list.extend(self, list(other))'),
+    'accessor_scope_ignored': _canary(
+        _B, None, 'writtable_via_accessors', 'if writable_in_scope is None:', 'if True:'),
+    'dict_delitem_no_accessor_check': _canary(
+        _D, 'Dict', '__delitem__', 'if not base.writtable_via_accessors(self):', 'if False:'),
+    'set_item_of_tree_no_sealed_check': _canary(
+        _B, 'Symbolic', '_set_item_of_current_tree', 'if treats_as_sealed(parent_node):', 'if False:'),
+    'list_sort_no_sealed_check': _canary(
+        _L, 'List', 'sort', 'if base.treats_as_sealed(self):', 'if False:'),
+}
+for _p in ('C07', 'C08'):
+    for _n, _c in CANARIES_BY_PROP[_p].items():
+        CANARIES[f'{_p}.{_n}'] = _c
